@@ -95,7 +95,9 @@ func ContainsRandom(stmt string) bool {
 
 // containsCall returns true if the statement contains one of the given names
 // followed by an opening parenthesis. SQLite allows white space between the
-// name of a function and the parenthesis, so it is allowed here too.
+// name of a function and the parenthesis, so it is allowed here too. SQLite
+// also accepts a quoted identifier as the name of a function ("random"(),
+// [random](), `random`()), so a closing quote after the name is skipped.
 func containsCall(stmt string, names ...string) bool {
 	for _, name := range names {
 		rest := stmt
@@ -105,7 +107,11 @@ func containsCall(stmt string, names ...string) bool {
 				break
 			}
 			rest = rest[i+len(name):]
-			if strings.HasPrefix(strings.TrimLeft(rest, " \t\r\n\f"), "(") {
+			after := rest
+			if len(after) > 0 && strings.ContainsRune("\"`]", rune(after[0])) {
+				after = after[1:]
+			}
+			if strings.HasPrefix(strings.TrimLeft(after, " \t\r\n\f"), "(") {
 				return true
 			}
 		}
